@@ -89,6 +89,19 @@ theorem add_nested_left_end_to_end [Inhabited α] (F : NFrame α) (hF : F.Consis
       col.rows = F.index.map fun l => if l ∈ flat.index then packedRow flat l else none :=
   addNested_left_rows F hF flat hne name na
 
+/-- **`add_nested(how="inner")` end to end** (`NP.NFrame.addNested`): the result keeps exactly the
+    frame rows whose label carries at least one flat record (`innerKept`), in their original order
+    and with the content of every column they had, and every kept row holds the cells of exactly
+    the flat records of its label, in original order — none of them is missing. -/
+theorem add_nested_inner_end_to_end [Inhabited α] (F : NFrame α) (hF : F.Consistent) (flat : FlatDF α)
+    (hne : flat.cols ≠ []) (name : String) (na : α) :
+    let kept := innerKept F.index flat.index
+    ∃ cols' col, F.addNested flat name .inner na =
+        .ok (NFrame.setCol { index := kept.map fun i => F.index.getD i (.int 0), cols := cols' } name (.nest col)) ∧
+      All2 (fun p p' => p'.1 = p.1 ∧ ColData.selected kept na p.2 p'.2) F.cols cols' ∧
+      col.rows = kept.map fun i => packedRow flat (F.index.getD i (.int 0)) :=
+  addNested_inner_rows F hF flat hne name na
+
 /-- **`from_flat` end to end** (`NP.NFrame.fromFlat`): one row per first occurrence of a label,
     the base columns hold the cells of those first occurrences, and EVERY row of the nested
     column is present and holds the cells of exactly the records carrying the row's label, in
